@@ -47,3 +47,33 @@ Theorem C03_heap_pop_keeps_elements :
   forall (T : Type) (le : T -> T -> bool) (dflt : T) (data : list T) (top : T) (rest : list T),
   pop le dflt data = Some (top, rest) -> Permutation data (top :: rest).
 Proof. exact pop_perm. Qed.
+
+From GB Require Import Subdivide LinkProofs.
+
+(** the sweep stage has no reachable panic site in release builds, for every numeric instance
+    (floats included) and every input, apart from the verification hook's event budget: in
+    particular the [unwrap] in possible_intersection.rs cannot fail, because every event
+    keeps a partner throughout the sweep (the link invariant of C13) *)
+Theorem C03_sweep_release_panic_free :
+  forall (N : Num) cfg fuel (A B : list (FillQueue.polygon N)) (op : operation) (site : panic_site),
+  c_debug cfg = false ->
+  subdivide cfg fuel (fill_queue A B op) op = Panic site -> site = PEventBudget.
+Proof. exact subdivide_release_panic_free. Qed.
+
+(** ... and in debug builds only the debug assertions can fire *)
+Theorem C03_possible_intersection_unwrap_safe :
+  forall (N : Num) cfg (s : Divide.sq N) (se1 se2 : eid),
+  sqinv N s -> mapped N (Divide.sq_st s) se1 -> mapped N (Divide.sq_st s) se2 ->
+  Divide.possible_intersection cfg s se1 se2 <> Panic PUnwrapPossibleIntersection.
+Proof. exact possible_intersection_unwrap_safe. Qed.
+
+(** the std BinaryHeap algorithms keep the heap shape and return a maximum under a
+    preorder (and keep the heap shape: push_heap_ok, pop_heap_ok in SortProofs) *)
+Theorem C03_heap_pop_returns_max :
+  forall (T : Type) (le : T -> T -> bool) (dflt : T),
+  (forall a, le a a = true) ->
+  (forall a b c, le a b = true -> le b c = true -> le a c = true) ->
+  forall (data : list T) (top : T) (rest : list T),
+  heap_ok le dflt data -> pop le dflt data = Some (top, rest) ->
+  forall x, In x data -> le x top = true.
+Proof. exact pop_max. Qed.
